@@ -25,10 +25,7 @@ pub fn format_number(
 /// Bit pattern of the (unconverted) numerical value of a quantity, and its unit as displayed.
 pub fn quantity_bits(value: &Value) -> Option<(u64, String)> {
     match value {
-        Value::Quantity(q) => Some((
-            q.unsafe_value().to_f64().to_bits(),
-            q.unit().to_string(),
-        )),
+        Value::Quantity(q) => Some((q.unsafe_value().to_f64().to_bits(), q.unit().to_string())),
         _ => None,
     }
 }
